@@ -478,10 +478,14 @@ def expand(template_path, std=True):
             value_drops = []
             sigrewrites = []
             annots_all = []
+            rewrites_all = []
             i += 1
             while tl[i].strip() != "//@end":
                 t = tl[i].strip()
-                if t.startswith("//@annotall "):
+                if t.startswith("//@rewriteall "):
+                    mm = re.match(r"//@rewriteall <<<(.*)>>> => <<<(.*)>>>\s*$", t)
+                    rewrites_all.append((mm.group(1), mm.group(2)))
+                elif t.startswith("//@annotall "):
                     mm = re.match(r"//@annotall <<<(.*)>>> => <<<(.*)>>>\s*$", t)
                     annots_all.append((mm.group(1).replace("\\n", "\n"), mm.group(2).replace("\\n", "\n")))
                 elif t.startswith("//@rewrite ") or t.startswith("//@annot "):
@@ -569,6 +573,11 @@ def expand(template_path, std=True):
                     raise Undecided("lost anchor: abstraction point <<<%s>>> matched %d times in fn %s" % (a, len(hits), name))
                 body = body[:hits[0].start()] + b + body[hits[0].end():]
                 g.log.abstractions.append("fn %s: <<<%s>>> -> <<<%s>>> (assumed contract of the stub)" % (name, a, b))
+            for (a, b) in rewrites_all:
+                body, cnt = anchor_regex(a).subn(lambda _m: b, body)
+                if cnt == 0:
+                    raise Undecided("lost anchor: abstraction point <<<%s>>> not found in fn %s" % (a, name))
+                g.log.abstractions.append("fn %s: every <<<%s>>> -> <<<%s>>> (%d sites; assumed contract of the stub)" % (name, a, b, cnt))
             for (a, b) in annots:
                 hits = list(anchor_regex(a).finditer(body))
                 if len(hits) != 1:
